@@ -14,13 +14,13 @@ from typing import Any, Dict, List, Optional, Tuple
 from hypothesis import strategies as st
 
 from .. import cli, cli_common, filegen, files, gen, model
-from ..runner import Outcome
+from ..runner import Outcome, case_hash
 
 ID = "C12"
 LEVEL = "fault_enumeration"
 RULE = (
     "Valid base inputs (1-3 assets, default column layout, flavours mixed / buy-only / income-only / transfer-heavy) + exactly "
-    "one fault drawn - weighted by the number of positions where it applies - from a catalogue of ~115 fault classes grounded in C12's statement (unknown asset/exchange/holder, other asset, timestamp without zone "
+    "one fault - class = hash of the drawn base input over the applicable classes (close to uniform), classes applicable at several positions counting double; position drawn - from a catalogue of ~115 fault classes grounded in C12's statement (unknown asset/exchange/holder, other asset, timestamp without zone "
     "or unparseable, type not allowed in its table, zero/negative amounts and fees, zero price where required, "
     "received > sent, both fees, text / numeric-looking text / empty cell in a mandatory numeric field, row shorter than "
     "the mapped columns, broken table structure in 12 variants, config faults in 17 variants, CLI faults in 10 variants), "
@@ -40,7 +40,7 @@ OUT_ONLY_BAD = ["BUY", "AIRDROP", "HARDFORK", "INCOME", "INTEREST", "MINING", "W
 
 
 def budget(tier: str) -> Dict[str, Any]:
-    return {"shards": 16, "examples": 56 if tier == "quick" else 500, "shrink": False}
+    return {"shards": 16, "examples": 64 if tier == "quick" else 600, "shrink": False}
 
 
 # ------------------------------------------------------------------------------------------------ fault catalogue
@@ -190,10 +190,14 @@ def strategy_case(draw: Any) -> Dict[str, Any]:
     base["schedule"] = None
     base["from"] = base["to"] = None
     faults = applicable_faults(base)
-    # fault classes with many applicable positions (data-row faults) are drawn more often than one-shot ones (config / CLI):
-    # whether a row-level fault is noticed can depend on the row (e.g. only rows that later take part in a gain/loss pairing)
-    weighted = [k for k in sorted(faults) for _ in range(1 + min(3, len(faults[k]) - 1))]
-    kind = draw(st.sampled_from(weighted))
+    # The fault class is a hash of the drawn base input (a pure function of the test data, reproducible) rather than a draw of
+    # its own: Hypothesis' integer / sampled_from / randoms draws favour the ends of their range, which left many of the ~130
+    # classes with 0-1 runs and a few with hundreds; the base input carries plenty of entropy, so the hash is close to uniform
+    # and every class is expected several times per quick run.  Classes that apply at several positions (row-level faults:
+    # whether they are noticed can depend on the row, e.g. only rows that later take part in a gain/loss pairing) count double.
+    # The position and the base input stay plain draws.
+    weighted = [k for k in sorted(faults) for _ in range(2 if len(faults[k]) > 1 else 1)]
+    kind = weighted[case_hash(base) % len(weighted)]
     position = draw(st.sampled_from(faults[kind]))
     base["fault"] = {"kind": kind, "position": list(position) if isinstance(position, tuple) else position, "variant": draw(st.integers(0, 5))}
     base["check_base"] = draw(st.integers(0, 5)) == 0
